@@ -23,7 +23,26 @@ def main():
         sys.exit(rc)
     ctx = Ctx(prop, a.tier, seed)
     try:
-        rc = mod.run(ctx)
+        if a.tier == "thorough":
+            # as many passes with consecutive seeds as fit into the budget (every pass uses the thorough bounds of the module)
+            import time
+            budget = float(os.environ.get("VERIF_THOROUGH_BUDGET", "900"))
+            maxp = int(os.environ.get("VERIF_THOROUGH_PASSES", "6"))
+            ctx.defer = True
+            k = 0
+            while True:
+                ctx.seed = seed + k
+                t1 = time.time()
+                mod.run(ctx)
+                k += 1
+                if k >= maxp or (time.time() - ctx.t0) + (time.time() - t1) > budget:
+                    break
+            ctx.defer = False
+            ctx.seed = seed
+            ctx.notes.update(passes=k, seeds=list(range(seed, seed + k)))
+            rc = ctx.finish(*ctx._deferred)
+        else:
+            rc = mod.run(ctx)
     except Machinery as e:
         print("MACHINERY-FAILURE %s: %s" % (prop, e))
         sys.exit(2)
